@@ -121,6 +121,7 @@ FEATURE = {
     'cyclohexene': mk(['C'] * 6, [(0, 1, 2), (1, 2, 1), (2, 3, 1), (3, 4, 1), (4, 5, 1), (5, 0, 1)]),
     'methylenecyclopentane': mk(['C'] * 6, [(0, 1, 1), (1, 2, 1), (2, 3, 1), (3, 4, 1), (4, 0, 1), (0, 5, 2)]),
     'cyclopropylmethanol': mk(['C', 'C', 'C', 'C', 'O'], [(0, 1, 1), (1, 2, 1), (2, 0, 1), (0, 3, 1), (3, 4, 1)]),
+    'dimethylcyclobutane': mk(['C'] * 6, [(0, 1, 1), (1, 2, 1), (2, 3, 1), (3, 0, 1), (0, 4, 1), (1, 5, 1)]),
     'bicyclobutane': mk(['C'] * 4, [(0, 1, 1), (1, 2, 1), (2, 3, 1), (3, 0, 1), (0, 2, 1)]),
     'spiro': mk(['C'] * 5, [(0, 1, 1), (1, 2, 1), (2, 0, 1), (0, 3, 1), (3, 4, 1), (4, 0, 1)]),
     'chloroform-like': mk(['C', 'Cl', 'Br', 'F'], [(0, 1, 1), (0, 2, 1), (0, 3, 1)]),
